@@ -10,7 +10,7 @@ import copy
 from simv.actors import forget
 from simv.checks.common import COMMON_ASSUMPTIONS, base_result, exc_violation, pick_engine_cfg, trace_tail
 from simv.harness import cook_engine, execute_once, gen_case, make_plan, pick_scheduler, run_digest
-from simv.model.exec import ROOT, enumerate_fault_sites
+from simv.model.exec import ROOT, enumerate_fault_sites, same_list_fault_pair
 from simv.oracle import V, check_against_plan, check_envelope, same, first_diff, visible_nulls
 from simv.tape import Tape
 
@@ -73,7 +73,7 @@ def run_one(seed, preset=None, tier="quick", want_case=False):
     ft = tape.sub("fault")
     case = gen_case(tape, doc_knobs={"max_ops": 2})
     cfg = pick_engine_cfg(cfgt)
-    plan_knobs = {"long_list_pct": 3}
+    plan_knobs = {"long_list_pct": 3, "mid_list_pct": 4}
     base = make_plan(case, tape, knobs=plan_knobs)
     r = base_result(tape)
     r["case_digest"] = case.digest()
@@ -93,6 +93,10 @@ def run_one(seed, preset=None, tier="quick", want_case=False):
     else:
         singles = ft.shuffle(singles)[:150] if len(singles) > 150 else singles
     fault_sets = [{p: k} for p, k in singles]
+    for _ in range(2 if tier == "quick" else 8):
+        pair = same_list_fault_pair(base, ft)
+        if pair:
+            fault_sets.append(pair)
     if high:
         for _ in range(3):
             p, k = high[ft.draw(len(high))]
